@@ -29,8 +29,9 @@ from harness.common.framework import Prop
 
 MODEL_PRIMS = ['mutUniform', 'mutSwap', 'selRandom', 'selSample', 'selTop', 'selBottom', 'selFirst',
                'selLast', 'recUniform', 'recSample', 'recKPoint', 'recSegmented', 'recOrder', 'recAverage',
-               'recWeightedAverage', 'selProportional', 'recPartiallyMapped', 'recCycle']
-ORACLE_ONLY = ['selTopCluster', 'selBottomCluster', 'nsga2SortPipeline',
+               'recWeightedAverage', 'selProportional', 'recPartiallyMapped', 'recCycle',
+               'selTopCluster', 'selBottomCluster']
+ORACLE_ONLY = ['nsga2SortPipeline',
                'lambdaDrop1', 'lambdaReverse', 'forEachFlatten']
 SELECTORS = {'Random', 'Sample', 'Proportional', 'Top', 'Bottom', 'First', 'Last'}
 
@@ -322,7 +323,7 @@ class ExprGen:
     r = self.rng
     names = ['selRandom', 'selRandom', 'selSample', 'selFirst', 'selLast', 'selProportional']
     if fit or self.sloppy:
-      names += ['selTop', 'selTop', 'selBottom']
+      names += ['selTop', 'selTop', 'selBottom', 'selTopCluster', 'selBottomCluster']
     n = r.choice(names)
     if n == 'selRandom':
       return ['prim', n, self.nspec(), r.chance(0.35)]
@@ -774,6 +775,10 @@ class C14(Prop):
       rep = ['seq', sel, stage()]
       if r.chance(0.3):
         rep = ['seq', ['seq', ['prim', 'selTop', 2], ['prim', 'recUniform']], stage()]
+      elif r.chance(0.15):
+        # a reproduction that hands back the population list itself (F421)
+        rep = r.choice([['identity'], ['choice', [[['prim', 'mutUniform'], [0, 0]]], None],
+                        ['cond', ['never'], ['prim', 'mutUniform'], ['identity']]])
       upd = r.choice([None, ['prim', 'selLast', n0 + 1], ['prim', 'selTop', n0]])
       algo = ['evolution', rep, n0, upd]
     elif kind == 'regularized':
@@ -802,6 +807,12 @@ class C14(Prop):
       for _ in range(r.randint(1, 2)):
         src = pop[r.below(len(pop))]
         pop.insert(r.below(len(pop) + 1), {'nums': list(src['nums']), 'fit': r.randint(-3, 6)})
+    if len(pop) >= 2 and r.chance(0.25):
+      # a leading (or trailing) cluster with several members: the best / worst reward is shared
+      fits = [ind['fit'] for ind in pop]
+      m = max(fits) if r.chance(0.6) else min(fits)
+      for _ in range(r.randint(1, 2)):
+        pop[r.below(len(pop))]['fit'] = m
     mode = r.weighted([(73, 'typed'), (12, 'sloppy'), (15, 'oracle_only')])
     g = ExprGen(r, len(pop), sloppy=(mode == 'sloppy'), oracle_only=(mode == 'oracle_only'))
     e, _ = g.expr(r.weighted([(1, 0), (3, 1), (5, 2), (5, 3), (4, 4)]))
@@ -1246,6 +1257,7 @@ class C14(Prop):
 
   def impl(self, case):
     import pyglove as pg
+    from pyglove.ext.evolution import base
     if case.get('kind') == 'evolve':
       return self.impl_evolve(case)
     self._verdicts = {}      # per run; the objects are kept alive by `run`
@@ -1292,6 +1304,18 @@ class C14(Prop):
         in_ids = {id(d) for d in ins}
         if any(id(d) not in in_ids for d in outs):
           fail('selector-nonmember:' + c['cls'], '%s returned an object that is not in its input' % c['cls'])
+        if c['cls'] in ('Top', 'Bottom') and c['op'].cluster and dna_in and all(
+            'reward' in d.metadata for d in ins):
+          # documented: "returns top/bottom N clusters; individuals that produce the same key form a cluster"
+          from pyglove.ext.evolution import selectors as _sel
+          n_ = _sel.compute_num_output(c['op'].n, len(ins), case.get('step', 0))
+          keys = [base.get_fitness(d) for d in ins]
+          best = set(sorted(set(keys), reverse=(c['cls'] == 'Top'))[:n_])
+          want_ids = sorted(id(d) for d, k in zip(ins, keys) if k in best)
+          if sorted(id(d) for d in outs) != want_ids:
+            fail('selector-cluster:' + c['cls'],
+                 '%s(%r, cluster=True) on keys %s returned keys %s: not the members of the %d best distinct keys %s' % (
+                     c['cls'], n_, keys, [base.get_fitness(d) for d in outs], n_, sorted(best)))
         want = self.documented_count(c['op'], len(ins))
         if want is not None and len(outs) != want:
           fail('selector-count:' + c['cls'], '%s returned %d items from %d inputs, documented: %d' % (
@@ -1366,7 +1390,9 @@ class C14(Prop):
         fail('schedule-depends-on-call-history',
              'at step %d a fresh operator returns %s, the same operator after calls at steps 0..%d returns %s' % (
                  case['step'], json.dumps(model)[:300], case['step'] - 1, json.dumps(model3)[:300]))
-    has_oo = noseed or any(p not in MODEL_PRIMS for p in prims)
+    has_oo = noseed or any(p not in MODEL_PRIMS for p in prims) or any(
+        f['signature'] in ('raises-on-valid-parents:Average:ValueError',
+                           'raises-on-valid-parents:WeightedAverage:ValueError') for f in checks)
     return {'model': None if has_oo else model, 'obs': model, 'oracle': run['log'], 'checks': checks,
             'tainted': tainted, 'n_calls': len(run['calls']), 'n_draws': len(run['log']),
             'mm_paths': run['mm_paths'], 'zero_seeds': run.get('zero_seeds', 0)}
@@ -1430,6 +1456,17 @@ class C14(Prop):
                         'what': '%s: the DNA evaluated as trial %d was modified afterwards: %s -> %s' % (
                             when, i + 1, snap, now)})
           evaluated[i] = (obj, now)
+    def check_population(when):
+      # with no update, Last(n) or Top(n) as population update the population is made of evaluated DNA objects
+      if multi:
+        return
+      known_ = [e for e, _ in evaluated] + proposed
+      lost = [x for x in algo.population if not any(x is e for e in known_)]
+      if lost and not any(f['signature'] == 'evolve:population-holds-unevaluated-object' for f in fails):
+        fails.append({'signature': 'evolve:population-holds-unevaluated-object',
+                      'what': '%s: the population holds %d object(s) that were never proposed or fed back '
+                              '(metadata %s): evaluated individuals were replaced' % (
+                                  when, len(lost), [dict(x.metadata) for x in lost][:3])})
     try:
       for t in range(case['rounds']):
         dna = algo.propose()
@@ -1447,12 +1484,14 @@ class C14(Prop):
         algo.feedback(dna, reward)
         check_evaluated('feedback #%d' % (t + 1))
         evaluated.append((dna, pg.to_json_str(dna)))
+        check_population('feedback #%d' % (t + 1))
         nums, bel = self.flat(dna)
         trace.append({'nums': nums, 'beliefs': bel, 'pid': dna.metadata.get('proposal_id'),
                       'gen': dna.metadata.get('generation_id'),
                       'initial': bool(dna.metadata.get('initial_population'))})
     except Exception as ex:       # pylint: disable=broad-except
       err = type(ex).__name__
+      check_population('when %s was raised' % err)
     counters = None
     if err is None:
       counters = [algo.num_proposals, algo.num_feedbacks, algo.num_generations, len(algo.population)]
@@ -1467,6 +1506,8 @@ class C14(Prop):
                         'algorithm with seed=None under the same `random.seed`' if case.get('noseed')
                         else 'seeded algorithm under different states of the global `random` module',
                         json.dumps(obs)[:300], json.dumps(obs2)[:300])})
+    # a polluted population (F421) explains whatever else goes wrong later in the same run: reported first
+    fails.sort(key=lambda f: f['signature'] != 'evolve:population-holds-unevaluated-object')
     seen, checks = set(), []
     for f in fails:
       if f['signature'] not in seen:
@@ -1474,7 +1515,7 @@ class C14(Prop):
         checks.append(f)
     model = None
     if self.evolve_request(case) is not None and not any(
-        f['signature'] == 'evolve:re-proposed-object' for f in checks):
+        f['signature'] in ('evolve:re-proposed-object', 'evolve:population-holds-unevaluated-object') for f in checks):
       model = {'outcome': 'ok' if obs['err'] is None else 'err', 'err': obs['err'], 'trace': obs['trace'],
                'counters': obs['counters']}
     return {'model': model, 'obs': {'outcome': 'ok' if obs['err'] is None else 'err', 'err': obs['err'],
